@@ -117,14 +117,15 @@ def from_gaussian(
     """
     sigma_px = _as_3_array(sigma) / scale
     shape_subpix = _as_3_array(shape) / scale
-    center_subpix = shape_subpix + np.array(shift) / scale
     shape_px = tuple(np.round(shape_subpix).astype(np.int32))
+    # center of the image (in pixel) + shift
+    center_subpix = (np.array(shape_px) - 1) / 2 + np.array(shift) / scale
 
     crds = np.indices(shape_px, dtype=np.float32)
 
     return np.exp(
         -0.5
-        * sum((xx - c) / sg for xx, c, sg in zip(crds, center_subpix, sigma_px)) ** 2
+        * sum(((xx - c) / sg) ** 2 for xx, c, sg in zip(crds, center_subpix, sigma_px))
     )
 
 
